@@ -4,6 +4,7 @@ import (
 	"bytes"
 	"context"
 	"fmt"
+	"strings"
 	"sync"
 
 	"goatverif/bed"
@@ -21,6 +22,8 @@ type c01Case struct {
 	GMP       int    `json:"gomaxprocs"`
 	GatedPct  int    `json:"gated_pct"`
 	Jitter    bool   `json:"jitter"`
+	CancelN   int    `json:"callers_cancelled_while_blocked,omitempty"`
+	LateN     int    `json:"callers_started_after_the_cancellations,omitempty"`
 }
 
 func c01Gen(seed int64, idx int) c01Case {
@@ -38,6 +41,13 @@ func c01Gen(seed int64, idx int) c01Case {
 	c.GMP = []int{1, 4, 16}[r.Intn(3)]
 	c.GatedPct = []int{0, 50, 100}[r.Intn(3)]
 	c.Jitter = r.Intn(3) != 0
+	if c.Topology == "direct" && c.Callers >= 16 && idx%8 == 1 {
+		// other callers give up while blocked behind the busy server (all handlers gated): their
+		// cancellation must not disturb anybody else's pairing
+		c.GatedPct, c.Cap = 100, 0
+		c.CancelN = 1 + r.Intn(3)
+		c.LateN = 1 + r.Intn(4)
+	}
 	return c
 }
 
@@ -63,8 +73,10 @@ func c01Run(tier string, seed int64, idx int) *core.Result {
 		done              bool
 		gated             bool
 		startSeq, doneSeq uint64
+		ctx               *svc.ManualCtx
+		cancelled, late   bool
 	}
-	recs := make([]*rec, c.Callers)
+	recs := make([]*rec, c.Callers+c.LateN)
 	byTag := map[string]*rec{}
 	var mu sync.Mutex
 	parked := make(chan string, c.Callers)
@@ -74,6 +86,8 @@ func c01Run(tier string, seed int64, idx int) *core.Result {
 		rc.req = payload(r, pick(r, sizeClasses))
 		rc.want = payload(r, pick(r, sizeClasses))
 		rc.gated = r.Intn(100) < c.GatedPct
+		rc.ctx = svc.NewManualCtx(context.Background())
+		rc.late = i >= c.Callers
 		recs[i] = rc
 		byTag[rc.tag] = rc
 		gates[rc.tag] = make(chan struct{})
@@ -97,13 +111,18 @@ func c01Run(tier string, seed int64, idx int) *core.Result {
 	}
 
 	var w Waiter
-	w.Add(c.Callers)
+	w.Add(len(recs))
 	start := make(chan struct{})
+	lateStart := make(chan struct{})
 	for i := range recs {
 		rc := recs[i]
 		go func() {
-			<-start
-			got, err := svc.Invoke(context.Background(), b.Conns[0], rc.tag, rc.req)
+			if rc.late {
+				<-lateStart
+			} else {
+				<-start
+			}
+			got, err := svc.Invoke(rc.ctx, b.Conns[0], rc.tag, rc.req)
 			mu.Lock()
 			rc.got, rc.err, rc.done = got, err, true
 			mu.Unlock()
@@ -119,8 +138,14 @@ func c01Run(tier string, seed int64, idx int) *core.Result {
 	}
 	relDone := make(chan struct{})
 	relStop := make(chan struct{})
+	relGo := make(chan struct{})
 	go func() {
 		defer close(relDone)
+		select {
+		case <-relGo:
+		case <-relStop:
+			return
+		}
 		var pk []string
 		released := 0
 		for released < ngated {
@@ -147,6 +172,31 @@ func c01Run(tier string, seed int64, idx int) *core.Result {
 		}
 	}()
 	close(start)
+	if c.CancelN > 0 {
+		// stage boundary: 8 handlers parked, the rest of the callers blocked behind them
+		quiet(tier)
+		mu.Lock()
+		n := 0
+		for _, rc := range recs {
+			if !rc.late && rc.handlerRuns == 0 && !rc.done && n < c.CancelN {
+				rc.cancelled = true
+				n++
+			}
+		}
+		mu.Unlock()
+		for _, rc := range recs {
+			if rc.cancelled {
+				rc.ctx.Cancel()
+			}
+		}
+		quiet(tier)
+		res.Stat("callers_cancelled_while_blocked", int64(n))
+	}
+	close(lateStart)
+	if c.CancelN > 0 {
+		quiet(tier)
+	}
+	close(relGo)
 
 	st, snap := settle(tier, func() bool { return w.Left() == 0 })
 	close(relStop)
@@ -170,6 +220,10 @@ func c01Run(tier string, seed int64, idx int) *core.Result {
 		mu.Lock()
 		for _, rc := range recs {
 			switch {
+			case rc.cancelled:
+				if rc.err == nil || rc.handlerRuns > 1 {
+					res.Violate("cancelled-caller-result", "caller %s was cancelled while blocked but returned err=%v (handler ran %d times)", rc.tag, rc.err, rc.handlerRuns)
+				}
 			case rc.err != nil:
 				res.Violate("unary-call-error", "call %s failed: %v (req %d bytes)", rc.tag, rc.err, len(rc.req))
 			case rc.handlerRuns != 1:
@@ -209,11 +263,14 @@ func c01Run(tier string, seed int64, idx int) *core.Result {
 				}
 			}
 			for id, n := range nreq {
+				if c.CancelN > 0 && n == 1 && nresp[id] <= 1 {
+					continue // a cancelled caller's request may be answered or not
+				}
 				if n != 1 || nresp[id] != 1 {
 					res.Violate("wire-unary-count", "id %d: %d request and %d response envelopes on the wire (want 1 and 1)", id, n, nresp[id])
 				}
 			}
-			if len(nreq) != c.Callers {
+			if c.CancelN == 0 && len(nreq) != c.Callers {
 				res.Violate("wire-id-count", "%d distinct ids on the wire for %d calls", len(nreq), c.Callers)
 			}
 			res.Stat("replies_overtaking_older_request", int64(overt))
@@ -221,12 +278,15 @@ func c01Run(tier string, seed int64, idx int) *core.Result {
 			res.NonTrivial = overt > 0
 		}
 		for tag, n := range b.Impl.Invoked() {
+			if rc := byTag[strings.TrimPrefix(tag, "u:")]; rc != nil && rc.cancelled {
+				continue
+			}
 			if n != 1 {
 				res.Violate("handler-runs-not-once", "%s invoked %d times", tag, n)
 			}
 		}
 	}
-	res.Stat("calls", int64(c.Callers))
+	res.Stat("calls", int64(len(recs)))
 	res.StatMax("max_concurrent_callers", int64(c.Callers))
 	res.SetAdd("topologies", c.Topology)
 	res.Sig = fmt.Sprintf("%+v", c)
@@ -240,13 +300,13 @@ func init() {
 	core.Register(&core.Prop{
 		ID:    "C01",
 		Level: "exploration",
-		Rule: "cases = (topology direct|proxy|fanin+demux) x callers {1,2,3,8,16,64} released together on ONE connection x link capacity {0,8} x {serialising, by-reference} x GOMAXPROCS {1,4,16} x handler-gating {0,50,100}% with a releaser letting parked handlers go in PRNG order; payload sizes from {0,1,17,1Ki,4Ki,64Ki} random bytes both ways. A case is non-trivial when, measured on the wire tap, at least one reply overtook an older unanswered request; distinct = distinct case parameter tuples.",
+		Rule: "cases = (topology direct|proxy|fanin+demux) x callers {1,2,3,8,16,64} released together on ONE connection x link capacity {0,8} x {serialising, by-reference} x GOMAXPROCS {1,4,16} x handler-gating {0,50,100}% with a releaser letting parked handlers go in PRNG order; payload sizes from {0,1,17,1Ki,4Ki,64Ki} random bytes both ways; every 8th direct case with >=16 callers additionally cancels 1..3 callers while they are blocked behind the fully gated server and starts 1..4 late callers before releasing the handlers. A case is non-trivial when, measured on the wire tap, at least one reply overtook an older unanswered request; distinct = distinct case parameter tuples.",
 		Plan:  func(tier string, seed int64) int { return tierN(tier, 96, 3000) },
 		Run:   c01Run,
 		MaxStats: []string{"max_concurrent_callers"},
 		Assumptions: []string{"transport is reliable and ordered (harness link)", "proxy topology limited to 12 concurrent calls (below the proxy's 16-slot buffer, see C16)"},
 		RequiredStats: func(string) []string {
-			return []string{"replies_overtaking_older_request", "hook:srv.unary.handoff", "hook:mux.beforeDispatch", "hook:srv.writer.beforeWrite"}
+			return []string{"replies_overtaking_older_request", "callers_cancelled_while_blocked", "hook:srv.unary.handoff", "hook:mux.beforeDispatch", "hook:srv.writer.beforeWrite"}
 		},
 	})
 }
